@@ -77,7 +77,7 @@ Definition verr_code (e : verr) : Z :=
 Definition crash_code (c : crash) : Z :=
   match c with
   | KeyError_last_picture_number => 101 | KeyError_picture_initial_fragment_offset => 102
-  | KeyError_fragment_slices_received => 103 | KeyError_slices_x => 104 | KeyError_slices_y => 105
+  | KeyError_fragment_slices_received => 103 | KeyError_slices_x => 104
   | KeyError_major_version => 106 | KeyError_picture_coding_mode => 107
   | UnboundLocalError_true_parse_offset => 108 | TypeError_none_offset => 109
   | AssertionError_level_matcher => 110 | ZeroDivisionError_slices_x => 111
